@@ -23,6 +23,7 @@ import (
 	"encoding/hex"
 	"encoding/json"
 	"errors"
+	"fmt"
 	"io"
 	"math"
 	"net/http"
@@ -376,7 +377,10 @@ func (m *lfsModule) handleHTTPProduce(w http.ResponseWriter, r *http.Request) {
 	}
 	defer func() { _ = backendConn.Close() }()
 
-	_, err = m.forwardToBackend(r.Context(), backendConn, payload)
+	respPayload, err := m.forwardToBackend(r.Context(), backendConn, payload)
+	if err == nil {
+		err = lfsCheckProduceResponse(respPayload, reqHeader.APIVersion, topic, partition)
+	}
 	if err != nil {
 		m.metrics.IncRequests(topic, "error", "lfs")
 		m.trackOrphans([]orphanInfo{{Topic: topic, Key: objectKey, RequestID: requestID, Reason: "kafka_produce_failed"}})
@@ -1076,7 +1080,11 @@ func (m *lfsModule) handleHTTPUploadComplete(w http.ResponseWriter, r *http.Requ
 	}
 	defer func() { _ = backendConn.Close() }()
 
-	if _, err := m.forwardToBackend(r.Context(), backendConn, payload); err != nil {
+	respPayload, err := m.forwardToBackend(r.Context(), backendConn, payload)
+	if err == nil {
+		err = lfsCheckProduceResponse(respPayload, reqHeader.APIVersion, session.Topic, session.Partition)
+	}
+	if err != nil {
 		m.trackOrphans([]orphanInfo{{Topic: session.Topic, Key: session.S3Key, RequestID: requestID, Reason: "kafka_produce_failed"}})
 		m.tracker.EmitUploadFailed(requestID, session.Topic, session.S3Key, "backend_error", err.Error(), "kafka_produce", session.TotalUploaded, 0)
 		m.lfsWriteHTTPError(w, requestID, session.Topic, http.StatusBadGateway, "backend_error", err.Error())
@@ -1091,6 +1099,30 @@ func (m *lfsModule) handleHTTPUploadComplete(w http.ResponseWriter, r *http.Requ
 	w.Header().Set("Content-Type", "application/json")
 	w.WriteHeader(http.StatusOK)
 	_ = json.NewEncoder(w).Encode(env)
+}
+
+// lfsCheckProduceResponse returns an error unless resp is a produce response that
+// acknowledges topic/partition with error code 0.
+func lfsCheckProduceResponse(resp []byte, version int16, topic string, partition int32) error {
+	parsed, err := parseProduceResponse(resp, version)
+	if err != nil {
+		return err
+	}
+	for _, t := range parsed.Topics {
+		if t.Topic != topic {
+			continue
+		}
+		for _, p := range t.Partitions {
+			if p.Partition != partition {
+				continue
+			}
+			if p.ErrorCode != 0 {
+				return fmt.Errorf("broker rejected produce to %s/%d: error code %d", topic, partition, p.ErrorCode)
+			}
+			return nil
+		}
+	}
+	return fmt.Errorf("produce response carries no result for %s/%d", topic, partition)
 }
 
 func (m *lfsModule) handleHTTPUploadAbort(w http.ResponseWriter, r *http.Request, requestID, sessionID string) {
